@@ -42,7 +42,19 @@ def tasks(tier, seed):
     t = [(MOD, "hyp", (n // shards, seed * 1_000_003 + i, tier)) for i in range(shards)]
     t.append((MOD, "fixed", ()))
     t += [(MOD, "guarded", (i, 16, tier)) for i in range(16)]
+    t += [(MOD, "tables", ("factored-pairs", tier, sh, 4)) for sh in range(4)]
     return t
+
+
+def tables(acc, name, tier, shard, nshards):
+    from . import c02
+
+    layer = "L1-" + name
+    acc.exhaustive_layers.add(layer)
+    mod = sys.modules[MOD]
+    for i, case in enumerate(c02.table_cases(name, tier)):
+        if i % nshards == shard:
+            harness.process(mod, acc, "family", {"names": ["os_name"], **case}, layer)
 
 
 def guarded(acc, shard, nshards, tier):
